@@ -25,6 +25,8 @@ class Ctx:
         self.tier = tier
         self.repo = pathlib.Path(repo or os.environ.get('QV_REPO', '/repo'))
         self.prog = Program(self.repo, overrides=overrides)
+        from . import inliner
+        self.inlined = inliner.inline_program(self.prog)
         self.res = Resolver(self.prog)
         U.INLINER = self._inline_call
         self.c_overrides = c_overrides or {}
@@ -64,9 +66,9 @@ class Ctx:
         class Sub(_ast.NodeTransformer):
             def visit_Name(self, node):
                 if node.id in amap and isinstance(node.ctx, _ast.Load):
-                    return copy.deepcopy(amap[node.id])
+                    return U.ast_copy(amap[node.id])
                 return node
-        return _ast.fix_missing_locations(Sub().visit(copy.deepcopy(body[0].value)))
+        return _ast.fix_missing_locations(Sub().visit(U.ast_copy(body[0].value)))
 
     @property
     def cprog(self):
